@@ -39,13 +39,17 @@ theorem readBlocks_consumed_le (multi : Bool) (total cap : Nat) : ∀ (fuel : Na
           · split at h
             · cases h
             · split at h
-              · injection h with h1 h2 h3
-                omega
+              · cases h
               · split at h
                 · cases h
-                · injection h with h1 h2 h3
-                  omega
-                · exact ih _ _ _ _ _ _ _ h
+                · split at h
+                  · injection h with h1 h2 h3
+                    omega
+                  · split at h
+                    · cases h
+                    · injection h with h1 h2 h3
+                      omega
+                    · exact ih _ _ _ _ _ _ _ h
 
 /-- **C04 / C16**: the reader never claims to have consumed more than it was given. -/
 theorem decode_consumed_le (multi : Bool) (inp : List Nat) (cap : Nat) (d : List Nat) (n : Nat) (b : List Block)
@@ -83,6 +87,8 @@ def decodeBlockBodyA (chk : Check) (h : BlockHeader) (consumedBefore : Nat) (inp
       | .error e => (.err e, [])
       | .ok (stored, rest) =>
         if stored ≠ chk.compute data then (.err .invalidData, stored)
+        else if declaredMismatch h.compSize r.consumed then (.err .invalidData, stored)
+        else if declaredMismatch h.uncompSize data.length then (.err .invalidData, stored)
         else (.ok { header := h, data, payload := inp.take r.consumed } rest, stored)
 
 theorem decodeBlockBodyA_fst (chk : Check) (h : BlockHeader) (cb : Nat) (inp : List Nat) (cap : Nat) :
@@ -116,7 +122,11 @@ theorem decodeBlockBodyA_fst (chk : Check) (h : BlockHeader) (cb : Nat) (inp : L
             | ok v2 =>
               obtain ⟨stored, rest2⟩ := v2
               simp only []
-              split <;> rfl
+              split
+              · rfl
+              · split
+                · rfl
+                · split <;> rfl
     · intro h2
       apply h1
       rw [List.any_eq_true] at h2 ⊢
@@ -150,6 +160,10 @@ theorem decodeBlockBodyA_ok (chk : Check) (h : BlockHeader) (cb : Nat) (inp : Li
             · cases hd
             · rename_i hne
               simp only [ne_eq, Decidable.not_not] at hne
+              split at hd
+              · cases hd
+              split at hd
+              · cases hd
               injection hd with h1 h2
               injection h1 with h3 h4
               subst h2 h3 h4
@@ -177,11 +191,13 @@ def readBlocksA (multi : Bool) (total : Nat) :
     | .ok (none, inp') =>
       match parseIndex inp' with
       | .error e => (.err e, log)
-      | .ok (recs, inp'') =>
+      | .ok (recs, isize, inp'') =>
         if recs.length ≠ blks.length then (.err .invalidData, log) else
+        if recs ≠ (blks.map (blockRecord chk)).reverse then (.err .invalidData, log) else
         match parseFooter inp'' with
         | .error e => (.err e, log)
-        | .ok (_, flags, rest) =>
+        | .ok (bs, flags, rest) =>
+          if (bs + 1) * 4 ≠ isize then (.err .invalidData, log) else
           if flags ≠ [0, chk.toByte] then (.err .invalidData, log) else
           if ¬ multi then (.ok acc (total - rest.length) blks, log) else
           match nextStream (rest.length + 1) rest 0 with
@@ -226,29 +242,33 @@ theorem readBlocksA_fst (multi : Bool) (total cap : Nat) : ∀ (fuel : Nat) (chk
         cases I with
         | error e => rfl
         | ok v =>
-          obtain ⟨recs, inp''⟩ := v
+          obtain ⟨recs, isize, inp''⟩ := v
           simp only []
           split
           · rfl
-          · generalize parseFooter inp'' = F
-            cases F with
-            | error e => rfl
-            | ok v =>
-              obtain ⟨bs, flags, rest⟩ := v
-              simp only []
-              split
-              · rfl
-              · split
+          · split
+            · rfl
+            · generalize parseFooter inp'' = F
+              cases F with
+              | error e => rfl
+              | ok v =>
+                obtain ⟨bs, flags, rest⟩ := v
+                simp only []
+                split
                 · rfl
-                · generalize nextStream (rest.length + 1) rest 0 = N
-                  cases N with
-                  | error e => rfl
-                  | ok o =>
-                    cases o with
-                    | none => rfl
-                    | some p =>
-                      obtain ⟨chk', rest'⟩ := p
-                      exact ih _ _ _ _ _
+                · split
+                  · rfl
+                  · split
+                    · rfl
+                    · generalize nextStream (rest.length + 1) rest 0 = N
+                      cases N with
+                      | error e => rfl
+                      | ok o =>
+                        cases o with
+                        | none => rfl
+                        | some p =>
+                          obtain ⟨chk', rest'⟩ := p
+                          exact ih _ _ _ _ _
 
 theorem decodeA_fst (multi : Bool) (inp : List Nat) (cap : Nat) :
     (decodeA multi inp cap).1 = Xz.decode multi inp cap := by
@@ -299,15 +319,19 @@ theorem readBlocksA_spec (multi : Bool) (total cap : Nat) : ∀ (fuel : Nat) (ch
           · split at h
             · cases h
             · split at h
-              · injection h with h1 h2
-                injection h1 with h3 h4 h5
-                exact ⟨[], by simp [h2], by simp, by simp [h3]⟩
+              · cases h
               · split at h
                 · cases h
-                · injection h with h1 h2
-                  injection h1 with h3 h4 h5
-                  exact ⟨[], by simp [h2], by simp, by simp [h3]⟩
-                · exact ih _ _ _ _ _ _ _ _ _ h
+                · split at h
+                  · injection h with h1 h2
+                    injection h1 with h3 h4 h5
+                    exact ⟨[], by simp [h2], by simp, by simp [h3]⟩
+                  · split at h
+                    · cases h
+                    · injection h with h1 h2
+                      injection h1 with h3 h4 h5
+                      exact ⟨[], by simp [h2], by simp, by simp [h3]⟩
+                    · exact ih _ _ _ _ _ _ _ _ _ h
 
 /-- **C04: acceptance implies verified checks.**  Whenever the reader accepts an input, the auditing reader
 (which returns the same result) has, for every block it output, read `chk.size` bytes from the input and found
